@@ -111,7 +111,7 @@ def unbuffered(ctx, prog, which, nemits):
                 if ev[0] == 'send_to':
                     script.append('ok' if ev[4] == 'ok' else 'err:' + kind_name(m, ev[5]))
             return {'kind': 'sink', 'sink': which, 'buffered': False,
-                    'lens': [max(1, m.eval(l, model_completion=True).as_long()) for l in lens], 'script': script}
+                    'lens': [m.eval(l, model_completion=True).as_long() for l in lens], 'script': script}
         return mk
 
     def on_path(ex, res, status):
@@ -192,6 +192,17 @@ def unbuffered(ctx, prog, which, nemits):
 # buffered sinks: construction parameters, adapter, flush / drop
 # ---------------------------------------------------------------------------------------------------------
 
+def wm_FI(name):
+    from . import writer_model
+    return writer_model.FI(name)
+
+
+def wm_layout(prog):
+    # wm_layout_done: the struct layout is read from the current source once per run
+    from . import writer_model
+    writer_model.field_order_check(prog)
+
+
 def find_mlw(v, depth=0):
     """Locate the MultiLineWriter inside a buffered sink value."""
     if isinstance(v, Agg):
@@ -260,10 +271,10 @@ def buffered(ctx, prog, which):
                 return
             want_cap = cap if ctor == 'with_capacity' else z3.BitVecVal(512, 64)
             reached['explicit' if ctor == 'with_capacity' else 'default'] += 1
-            bw = mlw.fields[3]
-            ending = mlw.fields[4]
+            bw = mlw.fields[wm_FI('inner')]
+            ending = mlw.fields[wm_FI('line_ending')]
             for prop in ('C13', 'C05'):
-                ctx.oblige(ex, prop, 'capacity', z3.And(mlw.fields[1].t == want_cap, bw.state[0].t == want_cap),
+                ctx.oblige(ex, prop, 'capacity', z3.And(mlw.fields[wm_FI('capacity')].t == want_cap, bw.state[0].t == want_cap),
                            'buffered %s sink built with a capacity other than %s' % (which, 'the one given' if ctor == 'with_capacity' else '512'))
                 ctx.oblige(ex, prop, 'terminator', ending.key() == (b'\n',), 'line terminator is %r, not a single newline' % (ending,))
             sock = ex.out['sock']
@@ -319,8 +330,8 @@ def spy_default(ctx, prog):
         if mlw is None:
             ctx.fail(ex, 'C05', 'buffered-structure', 'no MultiLineWriter inside BufferedSpyMetricSink')
             return
-        ctx.oblige(ex, 'C05', 'capacity', z3.And(mlw.fields[1].t == 512, mlw.fields[3].state[0].t == 512), 'spy sink default capacity is not 512')
-        ctx.oblige(ex, 'C05', 'terminator', mlw.fields[4].key() == (b'\n',), 'spy sink terminator is not a newline')
+        ctx.oblige(ex, 'C05', 'capacity', z3.And(mlw.fields[wm_FI('capacity')].t == 512, mlw.fields[wm_FI('inner')].state[0].t == 512), 'spy sink default capacity is not 512')
+        ctx.oblige(ex, 'C05', 'terminator', mlw.fields[wm_FI('line_ending')].key() == (b'\n',), 'spy sink terminator is not a newline')
 
     ex.run(entry, on_path)
     ctx.stats.append(ex.stats)
@@ -421,13 +432,12 @@ def update_concurrent(ctx, prog, nthreads):
         def on_path(ex, res, status):
             ctx.paths += 1
             if status == 'ok':
-                progs.append(res)
+                progs.append((res, list(ex.pc)))
 
         ex.run(entry, on_path)
         ctx.stats.append(ex.stats)
-        if len(progs) != 1:
-            raise Unsupported('update has %d paths for outcomes %r (expected a straight line)' % (len(progs), combo))
-        threads = progs[0]
+        if not progs:
+            raise Unsupported('update has no normal path for outcomes %r' % (combo,))
         init = {l: v for l, v in zip(labels, c)}
         add = {l: z3.BitVecVal(0, 64) for l in labels}
         for i, oc in enumerate(combo):
@@ -437,23 +447,25 @@ def update_concurrent(ctx, prog, nthreads):
             else:
                 add['bytes_dropped'] = add['bytes_dropped'] + ls[i]
                 add['packets_dropped'] = add['packets_dropped'] + 1
-        t0 = time.time()
-        res, info = atomic_sched.interleave(threads, init, lambda mem: z3.And(*[mem[l] == init[l] + add[l] for l in labels]),
-                                            timeout_ms=900000 if ctx.out.tier == 'thorough' else 120000)
-        ctx.obligations += 1
-        ctx.sched_queries = getattr(ctx, 'sched_queries', 0) + 1
-        ctx.sched_time = getattr(ctx, 'sched_time', 0.0) + time.time() - t0
-        if res == 'unknown':
-            raise Unsupported('solver unknown on the interleaving query')
-        if res == 'sat':
-            m = info['model']
-            sc = {'kind': 'sink', 'sink': 'stats-concurrent', 'threads': nthreads, 'outcomes': list(combo), 'schedule': info['schedule'],
-                  'ops': [[repr(o) for o in t] for t in threads]}
-            ctx.findings.append({'prop': 'C14', 'clause': 'concurrent-exact', 'scenario': sc, 'pc': [], 'neg': None,
-                                 'detail': 'with %d concurrent emitters (%s) there is an interleaving (schedule %r of the atomic ops %r) after which the counters are not the sums'
-                                           % (nthreads, ','.join(combo), info['schedule'], [[repr(o) for o in t] for t in threads])})
-        if not atomic_sched.reachable(threads, init):
-            raise Unsupported('vacuous: interleaving model has no complete schedule')
+        # one query per path of the kernel (a path = one outcome of its data-dependent branches, e.g. on the error kind)
+        for threads, pathc in progs:
+            t0 = time.time()
+            res, info = atomic_sched.interleave(threads, init, lambda mem: z3.And(*[mem[l] == init[l] + add[l] for l in labels]), extra=pathc,
+                                                timeout_ms=900000 if ctx.out.tier == 'thorough' else 120000)
+            ctx.obligations += 1
+            ctx.sched_queries = getattr(ctx, 'sched_queries', 0) + 1
+            ctx.sched_time = getattr(ctx, 'sched_time', 0.0) + time.time() - t0
+            if res == 'unknown':
+                raise Unsupported('solver unknown on the interleaving query')
+            if res == 'sat':
+                m = info['model']
+                sc = {'kind': 'sink', 'sink': 'stats-concurrent', 'threads': nthreads, 'outcomes': list(combo), 'schedule': info['schedule'],
+                      'ops': [[repr(o) for o in t] for t in threads]}
+                ctx.findings.append({'prop': 'C14', 'clause': 'concurrent-exact', 'scenario': sc, 'pc': [], 'neg': None,
+                                     'detail': 'with %d concurrent emitters (%s) there is an interleaving (schedule %r of the atomic ops %r) after which the counters are not the sums'
+                                               % (nthreads, ','.join(combo), info['schedule'], [[repr(o) for o in t] for t in threads])})
+            if not atomic_sched.reachable(threads, init, extra=pathc):
+                raise Unsupported('vacuous: interleaving model has no complete schedule')
         checked += 1
     ctx.vacuity['concurrent-update'] = {'threads': nthreads, 'outcome_combinations': checked}
 
@@ -476,6 +488,7 @@ def run(out, replay_path=None):
             out.violations.append({'key': None, 'what': hit[0]['detail'], 'scenario': sc, 'native': hit})
         return
     prog, dinfo = dump.dump_mir()
+    wm_layout(prog)
     ctx = Ctx(out)
     thorough = out.tier == 'thorough'
     for which in ('udp', 'unix'):
